@@ -263,11 +263,13 @@ Definition policy_table : list policy := [
   mkP "ClipperD" "invScale_" KConstant [] [] (Some ["ClipperD::ClipperD"]);
   mkP "ClipperD" "zCallbackD_" KOption [] [] (Some ["ClipperD::SetZCallback"]);
   (* ---- ClipperOffset ----  "written before read" here speaks about *calls*: nothing survives from one Execute to
-     the next.  Inside one call delta_ (std::abs in DoGroupOffset:454) and end_type_ (two-point Joined path, 523-526)
-     do leak from one group/path to the next: DESIGN 9 items 2 and 3, decided by OffsetPlan.v and by the offset
-     validation of checks/C12.py under the keys offset.delta-abs-leak... / offset.endtype-leak... *)
+     the next.  Inside one call the per-group / per-path values (group_delta_, join_type_, end_type_, step constants) are
+     decided by OffsetPlan.v (C12_plan_order_independent) and by the offset validation of checks/C12.py.
+     delta_ belongs to the whole call: ExecuteInternal is its only writer (before offset-delta-abs-leak.patch
+     DoGroupOffset overwrote it with its absolute value for a Polygon group without a lowest path; the [p_only] below
+     makes C12_fields_covered fail if such a write comes back). *)
   mkP CO "error_code_" KWrittenBeforeRead [(co "ExecuteInternal", "assign")] off_calls (Some [co "ExecuteInternal"]);
-  mkP CO "delta_" KWrittenBeforeRead [(co "ExecuteInternal", "assign")] off_calls None;
+  mkP CO "delta_" KWrittenBeforeRead [(co "ExecuteInternal", "assign")] off_calls (Some [co "ExecuteInternal"]);
   mkP CO "group_delta_" KWrittenBeforeRead [(co "DoGroupOffset", "assign")] off_calls None;
   (* assigned in ExecuteInternal (584) before the group loop; read only in OffsetPoint *)
   mkP CO "temp_lim_" KWrittenBeforeRead [(co "ExecuteInternal", "assign")] off_calls (Some [co "ExecuteInternal"]);
